@@ -446,3 +446,18 @@ package diam
 //@   ensures [C09] empty: mux != nil && fresh(mux) && mux.m != nil && mux.idxMap != nil && !closed(mux.e) &&
 //@           (forall k CommandIndex :: !has(mux.idxMap, k)) && (forall s string :: !has(mux.m, s))
 //@ end
+//@
+//@ # ======================= writing with retries (C07) ======================
+//@ func writeRetry(w, b, retries) (n, err)
+//@   property C07
+//@   requires w != nil && 0 <= written(w) && written(w) < 1<<44
+//@   modifies written(w), wlog(w)[written(w):written(w)+len(b)]
+//@   ensures [C07] no_gap_no_repeat: 0 <= n && n <= len(b) && written(w) == old(written(w)) + n
+//@   ensures [C07 thorough] exactly_the_unsent_bytes: forall i int :: 0 <= i && i < n ==> wlog(w)[old(written(w)) + i] == b[i]
+//@   ensures [C07] complete_on_success: err == nil ==> n == len(b)
+//@   loop 0
+//@     modifies written(w), wlog(w)[written(w):written(w)+len(b)]
+//@     invariant [C07] resumes_at_first_unsent: 0 <= n && n <= len(b0) && isslice(b, b0, n) && written(w) == old(written(w)) + n
+//@     invariant [C07 thorough] sent_prefix: forall i int :: 0 <= i && i < n ==> wlog(w)[old(written(w)) + i] == b0[i]
+//@   end
+//@ end
